@@ -548,7 +548,7 @@ def main():
         else:
             log("scratch kept at", scratch)
     wall = time.time() - t0
-    if not a.no_evidence and not a.only:
+    if not a.no_evidence and not a.only and not os.environ.get("VERIF_NO_EVIDENCE"):
         write_evidence(prop, tier, seed, wall, groups, results, verdicts, violations, known_hits, inconclusive)
     for k in known_hits:
         print("KNOWN-FINDING: property=%s %s [%s] %s" % (prop, k["id"], k["harness"].split("::")[-1], k["what"]))
